@@ -147,7 +147,7 @@ MapForms       == <<"int64", "uint8", "int32">>                            \* el
 \* probes that must be refused: <<kind, argument>>
 BadProbes == <<<<"word", <<"A", "N", "G">>>>, <<"word", <<"A", "T">>>>, <<"word", <<"A", "T", "G", "A">>>>, <<"word", <<>>>>,
                <<"word", <<"R", "Y", "N">>>>, <<"code", <<1, 2>>>>, <<"code", <<0, 1, 2, 3>>>>, <<"code", <<>>>>,
-               <<"map", <<<<0, 3>>, <<1, 1>>>>>>, <<"map", <<<<0, 1, 2, 3>>>>>>>>
+               <<"map", <<<<0, 3>>, <<1, 1>>>>>>, <<"map", <<<<0, 1, 2, 3>>>>>>, <<"map", <<<<2>>>>>>, <<"code", <<2>>>>>>
 ProbeOutcome(t, p) ==
   CASE p[1] = "word" -> AaOfWord(t, p[2]).oc
     [] p[1] = "code" -> AaCodeOfCode(t, p[2]).oc
